@@ -17,6 +17,22 @@ CLAIMED = {
             "declined: SciPy's own results"),
     "C05": ("role/axis type checking (E/N units of measure) + projection-label dataflow over grid/scatter/profile paths",
             "declined: the predicted values"),
+    "C07": ("rational normal forms of spacing_to_size/shape_to_spacing/pixel shift/profile_coordinates matched path-by-path with transcribed docstring formulas; role/axis typing of grid_coordinates",
+            "declined: that linspace hits the bounds, round() at exact .5 ties, floating-point effects of huge offsets"),
+    "C08": ("forwarding/literal checks of the pixel-registered centre grid, role agreement of k-d tree and query, tuple-position and flatten-order checks",
+            "declined: nearest centre = containing block (geometry of rectangular Voronoi cells), points outside the region"),
+    "C13": ("role/axis typing of bounds and comparisons, normal forms of get_region/pad_region, predicate-tree analysis of inside, out= buffer liveness, validation reachability",
+            "declined: containment of generated nodes (semantics of uniform/linspace)"),
+    "C14": ("normal form of the shrunk centre region, literal/operator checks of the closed square ball query, index-shape and flatten-order checks, rejection guards",
+            "declined: coverage of the region, nesting by size (monotonicity of ball queries)"),
+    "C15": ("literal/operator/tuple-position checks on every k-d tree query, cross-method axis-order agreement of tree and query, projection-label agreement",
+            "declined: agreement with brute-force distances (SciPy's k-d tree)"),
+    "C16": ("dataflow checks of the shared normalisation, hull-on-data/query-on-grid, the != -1 test, projection of both point sets, project_grid pipeline wiring",
+            "declined: hull geometry, NaN/finite pattern, value preservation, range under antialiasing"),
+    "C18": ("role/axis typing of every (dimension name, coordinate array) pairing, mesh slicing direction, meshgrid operand order and reversal; name-count rejection; flatten order",
+            "declined: nothing structural; values are moved by numpy/xarray/pandas"),
+    "C19": ("open/close pairing over all paths incl. the exceptional one, readline() call-instance ordinals for header order, role typing of shape/region, dominance of the integrity check",
+            "declined: numpy's parsing of whitespace/number formats, allclose tolerance, wrapped-row layouts (value-level)"),
     "C20": ("alias/effect analysis with call-graph summaries; typestate (event order) of fit/predict; constructor-contract and who-may-call checks",
             "declined: bit-identical repetition, behaviour after clone (follow from the checked clauses plus deterministic libraries)"),
 }
